@@ -474,3 +474,60 @@ def initial_state_reaches_the_model(ctx, f: FuncInfo, clause: str):
            (f"called {'with the state ' + str(bad[0]) if bad[0] is not None else 'without a state'}, the model's update_input receives {bad[1]}: "
             f"{'the state the caller passed is dropped and a stateful model starts from its default' if bad[0] is not None else 'expected an empty state'}") if bad else "",
            rel, call.lineno, sample=dict(statements=len(keep)))
+
+
+def eos_is_stored_normalised(ctx, f: FuncInfo, clause: str):
+    """The search modules accept the end-of-sequence token as an index from either end of the vocabulary (-V .. V - 1) and compare tokens
+    with `self.eos`; tokens are non-negative, so the stored value is the index counted from the front. By value: the statements of the
+    constructor that define what is stored in `self.eos` (a backward slice; validators return their first argument) are interpreted
+    (sa/pyinterp.py) for eos = None, 0, V - 1, -1 and -V with V = 5: None stays None, every other value is stored as eos mod V. A negative
+    value stored as given never equals a token - no path ever ends, and the forced re-emission indexes one_hot with a negative class."""
+    import copy
+    from sa.inteval import NotEvaluable
+    from sa.pyinterp import Obj, PyInterp, Raised
+    col = ctx.col
+    rel = f.module.relname
+    where = f"{rel}::{f.qualname}"
+    body = list(f.node.body)
+    store_at = next((i_ for i_, st in enumerate(body) if isinstance(st, ast.Assign) and any(
+        isinstance(t_, ast.Attribute) and u(t_) == "self.eos" for t_ in st.targets)), None)
+    if store_at is None:
+        col.undecided(f"{where}: no top-level `self.eos = ...` found")
+        return
+    stored = body[store_at].value
+    need = {x.id for x in ast.walk(stored) if isinstance(x, ast.Name)}
+    keep = []
+    for st in reversed(body[:store_at]):
+        stores = {t.id for x in ast.walk(st) if isinstance(x, (ast.Assign, ast.AnnAssign, ast.AugAssign))
+                  for t in (x.targets if isinstance(x, ast.Assign) else [x.target]) if isinstance(t, ast.Name)}
+        if stores & need and isinstance(st, (ast.Assign, ast.AnnAssign, ast.If)):
+            keep.append(st)
+            need |= {x.id for x in ast.walk(st) if isinstance(x, ast.Name) and isinstance(x.ctx, ast.Load)}
+    keep.reverse()
+    params = [p.name for p in f.params[1:] if p.name in need]
+    fn = ast.FunctionDef(name="_eos", args=ast.arguments(posonlyargs=[], args=[ast.arg(arg=p_) for p_ in params], kwonlyargs=[], kw_defaults=[], defaults=[]),
+                         body=[copy.deepcopy(s_) for s_ in keep] + [ast.Return(value=copy.deepcopy(stored))], decorator_list=[])
+    ast.fix_missing_locations(fn)
+    V = 5
+    holder = {}
+
+    def leaf(e, env):
+        if isinstance(e, ast.Call) and call_name(e).startswith("argcheck.") and e.args:
+            return holder["it"].eval(e.args[0], env)
+        return None
+    bad = None
+    try:
+        for eos in (None, 0, V - 1, -1, -V):
+            it = PyInterp(leaf=leaf)
+            holder["it"] = it
+            args = [eos if p_ == "eos" else (Obj(vocab_size=V) if p_ == "lm" else None) for p_ in params]
+            got = it.call_function(fn, args, {})
+            want = None if eos is None else eos % V
+            if (got != want or type(got) is not type(want)) and bad is None:
+                bad = (eos, got, want)
+    except (NotEvaluable, Raised, KeyError, TypeError, AttributeError) as e_:
+        col.undecided(f"{where}: the definition of self.eos is outside the interpreted fragment ({e_})")
+        return
+    col.ob("G12", clause, f"{where}::eos-stored-as-an-index-from-the-front", bad is None,
+           (f"constructed with eos={bad[0]} over a vocabulary of {V}, the module stores {bad[1]!r}; tokens are compared with the stored value, "
+            f"so it must be {bad[2]!r}") if bad else "", rel, body[store_at].lineno, sample=dict(statements=len(keep)))
